@@ -129,7 +129,7 @@ class ReconcileMonitor(Monitor):
                 if o.status is not None and o.status.name in TRANSIENT + ("PENDING",):
                     site = "order-left-%s-after-drain" % o.status.name.lower()
                 lg = [x.name for x in o.status_log]
-                if o.complete and not b["complete"] and lg[-2:] == ["CANCELLING", "EXECUTION_COMPLETE"] and b["cancelled"] > 0 and abs(b["cancelled"] - b["remaining"]) < 1e-9:
+                if o.complete and not b["complete"] and lg[-2:] == ["CANCELLING", "EXECUTION_COMPLETE"] and b["cancelled"] > 0 and abs(b.get("last_cancel", b["cancelled"]) - b["remaining"]) < 1e-9:
                     site = "partial-cancel-response-after-stream-update-completes-live-order"
                 self.violate(self.P, "C11.agree", site, bet_id=bid, local=list(got), exchange=list(want), status=o.status.name if o.status else None, status_log=[s.name for s in o.status_log], restarts=self.restarts)
         # live list / trades
